@@ -142,6 +142,38 @@ let of_output (o : QuerySpec.output) : Sx.t =
   | QuerySpec.OOverflow -> L [A "err"; A "overflow"]
   | QuerySpec.OOther -> A "other"
 
+(* ---- merge kernels (C04 / C05) ---------------------------------------------------------------- *)
+(* comparator: "lt" = CmpLessThan (ascending), "gt" = CmpGreaterThan (descending) on i64 keys *)
+let cmp_eq_of (x : Sx.t) = match atom x with
+  | "lt" -> BinInt.Z.leb | "gt" -> BinInt.Z.geb | _ -> bad "comparator"
+let cmp_of (x : Sx.t) = match atom x with
+  | "lt" -> BinInt.Z.ltb | "gt" -> BinInt.Z.gtb | _ -> bad "comparator"
+
+let of_ops (ops : bool list) : Sx.t = L (List.map (fun b -> A (if b then "1" else "0")) ops)
+let to_ops (x : Sx.t) : bool list = List.map (fun a -> atom a = "1") (lst x)
+
+let of_mop (o : MergeKernels.mop) : Sx.t =
+  A (match o with MergeKernels.TakeLeft -> "tl" | MergeKernels.TakeRight -> "tr" | MergeKernels.MergeRight -> "mr")
+let to_mop (x : Sx.t) : MergeKernels.mop =
+  match atom x with
+  | "tl" -> MergeKernels.TakeLeft | "tr" -> MergeKernels.TakeRight | "mr" -> MergeKernels.MergeRight
+  | _ -> bad "mop"
+
+let of_nat (n : Datatypes.nat) : Sx.t = of_int (int_of_nat n)
+let to_nat (x : Sx.t) : Datatypes.nat = nat_of_int (to_int x)
+let of_groups (gs : (Datatypes.nat * Datatypes.nat) list) : Sx.t =
+  L (List.map (fun (a, b) -> L [of_nat a; of_nat b]) gs)
+let to_groups (x : Sx.t) : (Datatypes.nat * Datatypes.nat) list =
+  List.map (function L [a; b] -> (to_nat a, to_nat b) | _ -> bad "group") (lst x)
+
+let of_agg_res (r : MergeKernels.agg_res) : Sx.t =
+  match r with
+  | MergeKernels.AOk vs -> L [A "ok"; of_list of_z vs]
+  | MergeKernels.AOverflow -> A "overflow"
+  | MergeKernels.APanic -> A "panic"
+
+let to_cmpop = to_cmp
+
 let run (entry : string) (inp : Sx.t) : Sx.t =
   match entry, inp with
   | "perform_checked", L [op; a; b] ->
@@ -156,6 +188,49 @@ let run (entry : string) (inp : Sx.t) : Sx.t =
   | "sum_tree", t -> of_opt of_z (CheckedArith.sum_tree (to_mtree t))
   | "aexpr_column", L [rows; e] ->
       eval_column (to_list (to_list (to_opt to_z)) rows) (to_aexpr e)
+  | "merge", L [c; l; r; limit] ->
+      let (m, ops) = SortKernels.merge (cmp_eq_of c) (to_list to_z l) (to_list to_z r) (to_n limit) in
+      L [of_list of_z m; of_ops ops]
+  | "merge_keep", L [ops; l; r] ->
+      of_opt (of_list of_z) (SortKernels.merge_keep (to_ops ops) (to_list to_z l) (to_list to_z r))
+  | "merge_keep_nullable", L [ops; l; r; lp; rp] ->
+      of_opt (fun (m, p) -> L [of_list of_z m; of_list of_bool p])
+        (SortKernels.merge_keep_nullable (to_ops ops) (to_list to_z l) (to_list to_z r)
+           (to_list to_bool lp) (to_list to_bool rp))
+  | "partition", L [c; l; r; limit] ->
+      of_groups (SortKernels.partition (cmp_eq_of c) BinInt.Z.eqb (to_list to_z l) (to_list to_z r) (to_n limit))
+  | "subpartition", L [c; groups; l; r] ->
+      of_groups (SortKernels.subpartition (cmp_eq_of c) BinInt.Z.eqb (to_groups groups) (to_list to_z l) (to_list to_z r))
+  | "merge_partitioned", L [c; groups; l; r; limit] ->
+      let (m, ops) = SortKernels.merge_partitioned (cmp_eq_of c) (to_groups groups) (to_list to_z l) (to_list to_z r) (to_n limit) in
+      L [of_list of_z m; of_ops ops]
+  | "heap_replace", L [c; keys; values; key; value] ->
+      let ks = to_list to_z keys in
+      let (k', v') = SortKernels.heap_replace (cmp_of c) (nat_of_int (List.length ks)) ks
+          (List.map to_nat (lst values)) (to_z key) (to_nat value) Datatypes.O in
+      L [of_list of_z k'; L (List.map of_nat v')]
+  | "append_limit", L [limit; l; r] ->
+      of_list of_z (SortKernels.append_limit (to_n limit) (to_list to_z l) (to_list to_z r))
+  | "final_slice", L [limit; offset; rows] ->
+      of_opt (of_list of_z) (SortKernels.final_slice (to_n limit) (to_n offset) (to_list to_z rows))
+  | "merge_deduplicate", L [c; l; r] ->
+      let (ks, ops) = MergeKernels.merge_deduplicate (cmp_eq_of c) BinInt.Z.eqb (to_list to_z l) (to_list to_z r) in
+      L [of_list of_z ks; of_list of_mop ops]
+  | "merge_deduplicate_partitioned", L [c; groups; l; r] ->
+      let (ks, ops) = MergeKernels.merge_deduplicate_partitioned (cmp_eq_of c) BinInt.Z.eqb (to_groups groups) (to_list to_z l) (to_list to_z r) in
+      L [of_list of_z ks; of_list of_mop ops]
+  | "merge_drop", L [ops; l; r] ->
+      of_opt (of_list of_z) (MergeKernels.merge_drop (to_list to_mop ops) (to_list to_z l) (to_list to_z r))
+  | "merge_aggregate", L [k; ops; l; r] ->
+      of_agg_res (MergeKernels.merge_aggregate (to_agg k) (to_list to_mop ops) (to_list to_z l) (to_list to_z r))
+  | "encoded_cmp", L [c; offset; v; k] ->
+      (* comparison of the stored value with the translated constant: (some bool) or none = the
+         translation overflows *)
+      (match EncodedCmp.encode_int (to_z offset) (to_z k) with
+       | None -> A "none"
+       | Some e -> L [A "some"; of_bool (EncodedCmp.cmp_enc (to_cmpop c) (BinInt.Z.sub (to_z v) (to_z offset)) e)])
+  | "inverse_dict_lookup", L [dict; c] ->
+      of_z (EncodedCmp.inverse_dict_lookup (to_list to_bytes dict) (to_bytes c))
   | "q_valid", L [rows; q; out] ->
       of_bool (QuerySpec.valid (to_query q) (to_rows rows) (to_output out))
   | "q_eval", L [rows; q] -> of_output (QuerySpec.eval_query (to_query q) (to_rows rows))
